@@ -183,5 +183,6 @@ LEVEL_TEXT = ('Generated-input search over all wavelets, level counts, admissibl
               'dilated filter), mode spellings and dtypes: SWTForward is compared as a whole operator and on '
               'dense inputs with pywt.swt2, its output structure is checked, and circular-shift equivariance is '
               'checked independently of PyWavelets.')
+LEVEL_TEXT += (' Also generated: separate row/column wavelets, modules with a past, autograd contexts, batches of 2-4 million samples.')
 LEVEL_NOTE = 'Sampled sizes <= 64x64 (full operators <= 256 pixels) plus occasional batches of 2-4 million samples; trusts pywt.swt2; relies on the fix: commit for SWTForward.'
 TECHNIQUE = 'property-based testing (Hypothesis), differential oracle pywt.swt2 + metamorphic shift relation'
